@@ -42,6 +42,15 @@ def realize(case, rng):
     pads = list(case["pads"])
     s = ksi.Sig()
     h = doc; lvl = 0; shapes = []
+    rfc = None
+    if case.get("rfc"):
+        # a legacy signature: the document hash is the input of the RFC 3161 record, whose output hash is the input of the first chain
+        which = rng.choice(["t", "s"])
+        rfc = dict(inp=doc, tpre=rng.randbytes(rng.randint(1, 40)), tsuf=rng.randbytes(rng.randint(0, 30)), spre=rng.randbytes(rng.randint(1, 40)), ssuf=rng.randbytes(rng.randint(0, 9)),
+                   talg=0 if (has("rfcAlg") and which == "t") else 1, salg=0 if (has("rfcAlg") and which == "s") else 1)
+        h = ksi.rfc3161_output(rfc, 0 if has("rfcOutAlg") else 1)
+        if has("rfcOutput"):
+            h = flip(h)
     for k in range(1, nch + 1):
         alg = 0 if has("aggrAlg", k) else 1
         n = rng.randint(1, 3)
@@ -77,6 +86,18 @@ def realize(case, rng):
         if has("indexCont", k):                       # chains below k disagree with chain k on the top-most index element
             for j in range(1, k):
                 s.chains[j - 1]["index"][0] += 4
+    if rfc is not None:
+        idx = list(s.chains[0]["index"])
+        if has("rfcIndex"):         # the record's index differs from the first chain's: a changed element, a surplus element at the end, a missing last element
+            how = rng.choice(["value", "surplus", "surplus2"] + (["shorter"] if len(idx) > 1 else []))
+            if how == "value":
+                j = rng.randrange(len(idx)); idx[j] = idx[j] ^ 1 if idx[j] > 1 else idx[j] + 2
+            elif how == "shorter":
+                idx = idx[:-1]
+            else:
+                idx = idx + [3] * (1 if how == "surplus" else 2)
+        rfc.update(time=s.chains[0]["time"] + (1 if has("rfcTime") else 0), index=idx)
+        s.rfc3161 = ksi.rfc3161_tlv(rfc)
     if case["cal"]:
         pub = t + 1000 + rng.randrange(500)
         cal_t = t + 1 if (has("calAggrTime") or has("calShape")) else t
@@ -103,5 +124,5 @@ def realize(case, rng):
     elif case["doc"] == "alg":
         other = 5 if in_alg != 5 else 1
         d["doc"] = ksi.imprint(other, b"document")
-    d["level"] = {"none": None, "ok": rng.choice([0, 1, BASE_LEVEL]), "over": BASE_LEVEL + 1, "huge": rng.choice([256, 1000, 1 << 32, (1 << 64) - 1])}[case["level"]]
+    d["level"] = {"none": None, "ok": rng.choice([1, BASE_LEVEL]) if case.get("rfc") else rng.choice([0, 1, BASE_LEVEL]), "over": BASE_LEVEL + 1, "huge": rng.choice([256, 1000, 1 << 32, (1 << 64) - 1])}[case["level"]]
     return d
